@@ -27,6 +27,7 @@ RULE = (
     "start at 0 and cover [0,n) exactly once; passes == 1, or 2 exactly when patch centres are generated; every emitted chunk <= chunk size; "
     "Parquet: every row group requested once per pass, in order, never more than chunk size + one row group buffered. "
     "Non-trivial: n > 2*chunk size; distinct = case digest."
+    ' Extensions: inputs up to 600 records and explicit probe sizes (sparse to whole input) when centres are generated.'
 )
 ASSUMPTIONS = [
     "FITS is checked at the emitted-chunk level only (astropy's memory-mapped column access is not observable from Python)",
